@@ -1,4 +1,5 @@
 import Atomman.C05
+import Atomman.C05_Hist
 open Atomman Atomman.C05
 
 /-
@@ -7,6 +8,15 @@ open Atomman Atomman.C05
       -> "vects(9) origin(3) | pos(3n) | flags(3n) | spos(3n)"
     norm px py pz n  v00 … v22  o0 o1 o2  x0 y0 z0 …
       -> "vects(9) origin(3) | pos(3n) | flags(3n) | transform(9) | spos in the (flipped) old box (3n) | flipped(0/1)"
+    hist px py pz n  v00 … v22  o0 o1 o2  x0 … ; op ; op ; …      (one System object, `;` is a token)
+      ops:  spos | wrap | rebuild | norm | boxset s v(9) o(3) | setvects v(9) | setorigin o(3) | setpbc px py pz
+      -> one section per op, joined by " ; ":
+           spos      "S spos(3n)"
+           wrap      "W vects(9) origin(3) | pos(3n) | flags(3n) | spos before(3n)"
+           norm      "N vects(9) origin(3) | pos(3n) | flags(3n) | transform(9) | spos in the (flipped) old box | flipped"
+           others    "B vects(9) origin(3) | pos(3n)"
+           failure   "E assert" / "E value" (singular cell); the history ends there
+      The history runs on the object-level model `CSys` (cached reciprocal vectors, clean-up of the setter).
   errors: err:format (malformed line), err:value (singular cell or no atoms),
           err:assert (an assertion of the code fails: box lengths not positive, transform not orthonormal)
 -/
@@ -34,6 +44,64 @@ def parseReq (px py pz n : String) (rest : List String) : Option Req :=
 
 def showBox (b : Box Rat) : String := showRats (b.vects.toList ++ b.origin.toList)
 
+/-- split a token list at every occurrence of `sep`. -/
+def splitOn (l : List String) (sep : String) : List (List String) :=
+  let r := l.foldr (fun t (acc : List String × List (List String)) =>
+    if t = sep then ([], acc.1 :: acc.2) else (t :: acc.1, acc.2)) ([], [])
+  r.1 :: r.2
+
+def parseOp (toks : List String) : Option (Op Rat) :=
+  match toks with
+  | ["spos"] => some .spos
+  | ["wrap"] => some .wrap
+  | ["rebuild"] => some .rebuild
+  | ["norm"] => some .normalize
+  | "boxset" :: s :: rest =>
+    match parseBool? s, parseRats? rest with
+    | some s, some xs =>
+      if xs.length ≠ 12 then none else
+      match M3.ofList? (xs.take 9), V3.ofList? (xs.drop 9) with
+      | some v, some o => some (.boxSet s v o)
+      | _, _ => none
+    | _, _ => none
+  | "setvects" :: rest =>
+    match parseRats? rest with
+    | some xs => (M3.ofList? xs).map .setVects
+    | none => none
+  | "setorigin" :: rest =>
+    match parseRats? rest with
+    | some xs => (V3.ofList? xs).map .setOrigin
+    | none => none
+  | ["setpbc", a, b, c] =>
+    match parseBool? a, parseBool? b, parseBool? c with
+    | some a, some b, some c => some (.setPbc ⟨a, b, c⟩)
+    | _, _, _ => none
+  | _ => none
+
+def showState (c : CSys Rat) : String := showBox c.box ++ " | " ++ showRats (flat c.pos)
+
+/-- run a history on the object-level model, one reply section per operation. The cell must stay
+    non-singular (numpy's `inv` would raise at the next use of the reciprocal vectors). -/
+def runHist (c : CSys Rat) : List (Op Rat) → List String
+  | [] => []
+  | op :: ops =>
+    let before := c
+    let r := stepC paramsRat c op
+    if M3.det r.1.box.vects = 0 then ["E value"] else
+    match op, r.2 with
+    | _, .failed => ["E assert"]
+    | _, .spos s => ("S " ++ showRats (flat s)) :: runHist r.1 ops
+    | _, .flags f =>
+      ("W " ++ showState r.1 ++ " | " ++ showInts (flatI f) ++ " | "
+        ++ showRats (flat (before.pos.map before.box.cartToRel))) :: runHist r.1 ops
+    | _, .normalized z =>
+      if !transformOK z.transform then ["E assert"] else
+      let b1 := flip before.box
+      ("N " ++ showBox z.box ++ " | " ++ showRats (flat z.pos) ++ " | " ++ showInts (flatI z.flags) ++ " | "
+        ++ showRats z.transform.toList ++ " | " ++ showRats (flat (before.pos.map b1.cartToRel)) ++ " | "
+        ++ showBool (decide (triple before.box.vects < 0))) :: runHist r.1 ops
+    | _, .unit => ("B " ++ showState r.1) :: runHist r.1 ops
+
 def handleC05 (toks : List String) : String :=
   match toks with
   | "wrap" :: px :: py :: pz :: n :: rest =>
@@ -57,6 +125,15 @@ def handleC05 (toks : List String) : String :=
         showBox z.box ++ " | " ++ showRats (flat z.pos) ++ " | " ++ showInts (flatI z.flags) ++ " | "
           ++ showRats z.transform.toList ++ " | " ++ showRats (flat (r.pos.map b1.cartToRel)) ++ " | "
           ++ showBool (decide (triple r.box.vects < 0))
+  | "hist" :: px :: py :: pz :: n :: rest =>
+    match splitOn rest ";" with
+    | [] => err "format"
+    | head :: opToks =>
+      match parseReq px py pz n head, opToks.mapM parseOp with
+      | some r, some ops =>
+        if M3.det r.box.vects = 0 || r.pos.isEmpty then err "value" else
+        " ; ".intercalate (runHist ⟨r.box, none, r.pbc, r.pos⟩ ops)
+      | _, _ => err "format"
   | _ => err "op"
 
 def main : IO Unit := runDriver handleC05
